@@ -10,6 +10,7 @@ CONSTANT DocMenu <- DMa1
 CONSTANT Lims <- L0
 CONSTANT MaxSteps = 8
 CONSTANT Thin = 4
+CONSTANT KeepRoleHist = FALSE
 CONSTANT PageGap = FALSE
 SPECIFICATION Spec
 VIEW view
